@@ -377,6 +377,21 @@ impl UnitRunner for C16 {
         (Expect::MustError, _) => { out.nontrivial += 1; }
       }
     }
+    // the value of a call does not depend on which calls came before it: the same calls in reverse order, in a fresh session
+    if c.calls.len() >= 2 && c.family != "recursion" && !c.calls.iter().any(|(call, _)| call.contains(":=") || call.contains("r@")) {
+      let mut s2 = Session::new();
+      if c.def.is_empty() || s2.run(&c.def).is_value() {
+        for (i, (call, _)) in c.calls.iter().enumerate().rev() {
+          out.evaluations += 1;
+          let stmt = if call.contains("r@") { call.replace("r@", &format!("r{}", i)) } else { format!("r{} := {}", i, call) };
+          let o2 = s2.run(&stmt);
+          let (g1, g2) = (s.get(&format!("r{}", i)), s2.get(&format!("r{}", i)));
+          if g1 != g2 && !matches!(o2, Outcome::Panic(_)) {
+            out.fail(format!("C16|call-order-dependent|{}", c.locus), format!("{} ;; {} (after the later calls of the list, in reverse order)", c.def.replace('\n', " "), stmt.replace('\n', " ")), format!("in ascending order {:?}, in descending order {:?}", g1.map(|x| x.short()), g2.map(|x| x.short())));
+          } else { out.count("call_order_independent"); }
+        }
+      }
+    }
     if unit % 41 == 0 { out.sample(json!({"definition": c.def, "first_call": c.calls.get(0).map(|x| x.0.clone()), "locus": c.locus})); }
   }
 }
